@@ -1,51 +1,16 @@
 /-
 Second half of the driver protocol: lexer / parser / printer / encoder operations.
+The codec functions used here (`decTerm`, `showTerm`, `decChars`, `showTok`, `decExprs`, ...) are those of `LC/Drv/Codec.lean`.
 -/
 import LC.Model.Term
 import LC.Model.Encode
 import LC.Model.Parser
 import LC.Model.Display
+import LC.Drv.Codec
 
-open LC LC.Term LC.Parser
+open LC LC.Term LC.Parser Drv
 
 namespace Drv2
-
-partial def encTerm (t : Term) (acc : String) : String :=
-  match t with
-  | .var n => acc ++ toString n
-  | .abs b => encTerm b (acc ++ "L ")
-  | .app l r => encTerm r (encTerm l (acc ++ "A ") ++ " ")
-
-def showTerm (t : Term) : String := encTerm t ""
-
-partial def decTerm : List String → Option (Term × List String)
-  | [] => none
-  | "L" :: rest => do
-    let (b, rest') ← decTerm rest
-    pure (.abs b, rest')
-  | "A" :: rest => do
-    let (l, r1) ← decTerm rest
-    let (r, r2) ← decTerm r1
-    pure (.app l r, r2)
-  | n :: rest => do
-    let k ← n.toNat?
-    pure (.var k, rest)
-
-partial def decTerms : Nat → List String → Option (List Term × List String)
-  | 0, ts => some ([], ts)
-  | n+1, ts => do
-    let (t, r) ← decTerm ts
-    let (more, r') ← decTerms n r
-    pure (t :: more, r')
-
-/-- a character on the wire: `cp:flags:dig`, flags = 1 ws | 2 alpha | 4 alnum, dig = 16 for none -/
-def decChar (s : String) : Option (Nat × Nat × Nat) :=
-  match s.splitOn ":" with
-  | [a, b, c] => do pure (← a.toNat?, ← b.toNat?, ← c.toNat?)
-  | _ => none
-
-def decChars (n : Nat) (ts : List String) : Option (List (Nat × Nat × Nat)) :=
-  (ts.take n).mapM decChar
 
 def lookup (tbl : List (Nat × Nat × Nat)) (c : Nat) : Nat × Nat :=
   match tbl.find? (fun x => x.1 == c) with
@@ -58,73 +23,10 @@ def mkCls (tbl : List (Nat × Nat × Nat)) : CharCls where
   isAlnum c := (lookup tbl c).1 / 4 % 2 == 1
   digit16 c := let d := (lookup tbl c).2; if d < 16 then some d else none
 
-def showErr : ParseError → String
-  | .InvalidCharacter i c => "err IC " ++ toString i ++ " " ++ toString c
-  | .InvalidExpression => "err IE"
-  | .EmptyExpression => "err EE"
-
-def showTok : Token → String
-  | .Lambda => "L" | .Lparen => "(" | .Rparen => ")" | .Number n => "N" ++ toString n
-
-def showName (n : List Nat) : String := ".".intercalate (n.map toString)
-
-def showCTok : CToken → String
-  | .CLambda n => "CL:" ++ showName n
-  | .CLparen => "(" | .CRparen => ")"
-  | .CName n => "CN:" ++ showName n
-
-def decName (s : String) : Option (List Nat) :=
-  if s.isEmpty then some [] else (s.splitOn ".").mapM (·.toNat?)
-
-def decCTok (s : String) : Option CToken :=
-  if s == "(" then some .CLparen
-  else if s == ")" then some .CRparen
-  else if s.startsWith "CL:" then CToken.CLambda <$> decName (s.drop 3).toString
-  else if s.startsWith "CN:" then CToken.CName <$> decName (s.drop 3).toString
-  else none
-
-def decTok (s : String) : Option Token :=
-  if s == "L" then some .Lambda
-  else if s == "(" then some .Lparen
-  else if s == ")" then some .Rparen
-  else if s.startsWith "N" then Token.Number <$> (s.drop 1).toString.toNat?
-  else none
-
-/-- expressions on the wire, prefix form: `A` (Abstraction), `V<i>` (Variable), `S<n>` followed by n expressions -/
-partial def showExpr : Expression → String
-  | .Abstraction => "A"
-  | .Variable i => "V" ++ toString i
-  | .Sequence es => " ".intercalate (("S" ++ toString es.length) :: es.map showExpr)
-
-mutual
-partial def decExpr : List String → Option (Expression × List String)
-  | [] => none
-  | w :: rest =>
-    if w == "A" then some (.Abstraction, rest)
-    else if w.startsWith "V" then do
-      let i ← (w.drop 1).toString.toNat?
-      pure (.Variable i, rest)
-    else if w.startsWith "S" then do
-      let n ← (w.drop 1).toString.toNat?
-      let (es, rest') ← decExprs n rest
-      pure (.Sequence es, rest')
-    else none
-partial def decExprs : Nat → List String → Option (List Expression × List String)
-  | 0, ts => some ([], ts)
-  | n+1, ts => do
-    let (e, r) ← decExpr ts
-    let (more, r') ← decExprs n r
-    pure (e :: more, r')
-end
-
-def showCps (s : List Nat) : String :=
-  toString s.length ++ s.foldl (fun acc c => acc ++ " " ++ toString c) ""
-
-def encOf : String → Option Enc.Encoding
-  | "church" => some .Church | "scott" => some .Scott | "parigot" => some .Parigot
-  | "stumpfu" => some .StumpFu | "binary" => some .Binary | _ => none
-
-def decNats (n : Nat) (ts : List String) : Option (List Nat) := (ts.take n).mapM (·.toNat?)
+/-- `signed` (`none`: the crate refuses) -/
+def resSigned : Option Term → String
+  | some t => showTerm t
+  | none => "PANIC"
 
 def exec2 (toks : List String) : String :=
   match toks with
@@ -133,48 +35,35 @@ def exec2 (toks : List String) : String :=
       let n' ← n.toNat?
       let chars ← decChars n' rest
       let cls := mkCls chars
-      pure (match tokenizeDbr cls (chars.map (fun (x : Nat × Nat × Nat) => x.1)) with
-        | .ok ts => " ".intercalate ("ok" :: ts.map showTok)
-        | .error e => showErr e)).getD "bad-op"
+      pure (resToks (tokenizeDbr cls (chars.map (fun (x : Nat × Nat × Nat) => x.1))))).getD "bad-op"
   | "lexc" :: n :: rest =>
     (do
       let n' ← n.toNat?
       let chars ← decChars n' rest
       let cls := mkCls chars
-      pure (match tokenizeCla cls (chars.map (fun (x : Nat × Nat × Nat) => x.1)) with
-        | .ok ts => " ".intercalate ("ok" :: ts.map showCTok)
-        | .error e => showErr e)).getD "bad-op"
+      pure (resCToks (tokenizeCla cls (chars.map (fun (x : Nat × Nat × Nat) => x.1))))).getD "bad-op"
   | "conv" :: n :: rest =>
     (do
       let n' ← n.toNat?
       let cts ← (rest.take n').mapM decCTok
-      pure (match convertClassicTokens cts with
-        | some ts => " ".intercalate ("ok" :: ts.map showTok)
-        | none => "PANIC")).getD "bad-op"
+      pure (resConv (convertClassicTokens cts))).getD "bad-op"
   | "ast" :: n :: rest =>
     (do
       let n' ← n.toNat?
       let ts ← (rest.take n').mapM decTok
-      pure (match getAst ts with
-        | .ok e => "ok " ++ showExpr e
-        | .error e => showErr e)).getD "bad-op"
+      pure (resAst (getAst ts))).getD "bad-op"
   | "fold" :: n :: rest =>
     (do
       let n' ← n.toNat?
       let (es, _) ← decExprs n' rest
-      pure (match foldExprs es with
-        | .ok t => "ok " ++ showTerm t
-        | .error e => showErr e)).getD "bad-op"
+      pure (resFold (foldExprs es))).getD "bad-op"
   | "parse" :: nota :: n :: rest =>
     (do
       let n' ← n.toNat?
       let chars ← decChars n' rest
       let cls := mkCls chars
       let no ← (if nota == "d" then some Notation.DeBruijn else if nota == "c" then some Notation.Classic else none)
-      pure (match parse cls (chars.map (fun (x : Nat × Nat × Nat) => x.1)) no with
-        | .ok t => "ok " ++ showTerm t
-        | .err e => showErr e
-        | .panic => "PANIC")).getD "bad-op"
+      pure (resParse (parse cls (chars.map (fun (x : Nat × Nat × Nat) => x.1)) no))).getD "bad-op"
   | "show" :: which :: lam :: rest =>
     (do
       let lam' ← lam.toNat?
@@ -199,9 +88,7 @@ def exec2 (toks : List String) : String :=
     (do
       let e' ← encOf e
       let i' ← i.toInt?
-      pure (match Enc.intoSignedChecked e' i' with
-        | some t => showTerm t
-        | none => "PANIC")).getD "bad-op"
+      pure (resSigned (Enc.intoSignedChecked e' i'))).getD "bad-op"
   | "vect" :: kind :: k :: rest =>
     (do
       let k' ← k.toNat?
